@@ -148,7 +148,7 @@ CANARIES = [
     ('check-accepts-leftover-pages', 'C05', 'src/tx.rs', '        if !unused_pages.is_empty() {\n            return Err(Error::InvalidDB(format!(\n                "Unreachable pages {:?}",\n                unused_pages,\n            )));\n        }\n', ''),
     ('check-skips-branch-children', 'C05', 'src/tx.rs', '                        page_stack.push(b.page);\n', ''),
     ('check-allows-equal-keys', 'C05', 'src/tx.rs', '                            if last >= b.key() {', '                            if last > b.key() {'),
-    ('check-tolerates-double-use', 'C05', 'src/tx.rs', '            if !unused_pages.remove(&page_id) {\n                return Err(Error::InvalidDB(format!(\n                    "Page {} missing from unused_pages",\n                    page_id,\n                )));\n            }\n', '            unused_pages.remove(&page_id);\n'),
+    ('tree-check-tolerates-double-use', 'C05', 'src/tx.rs', '            if !unused_pages.remove(&page_id) {\n                return Err(Error::InvalidDB(format!(\n                    "Page {} missing from unused_pages",\n                    page_id,\n                )));\n            }\n', '            unused_pages.remove(&page_id);\n'),
     ('check-ignores-free-list-entries', 'C05', 'src/tx.rs', '                    for page_id in page.freelist() {\n                        if !unused_pages.remove(page_id) {', '                    for page_id in page.freelist().iter().skip(1) {\n                        if !unused_pages.remove(page_id) {'),
     ('get-bucket-creates', 'C01', 'src/bucket.rs', '        self.bucket_getter(name.to_bytes(), false, false)', '        self.bucket_getter(name.to_bytes(), true, false)'),
     ('create-bucket-returns-existing', 'C01', 'src/bucket.rs', '        self.bucket_getter(name.to_bytes(), true, true)', '        self.bucket_getter(name.to_bytes(), true, false)'),
